@@ -1,7 +1,11 @@
 package props
 
 import (
+	"os"
+	"strings"
+
 	"fmt"
+	"golang.org/x/tools/go/ssa"
 	"math/big"
 	"sort"
 
@@ -79,6 +83,61 @@ func debugLimbs(r *core.Run) {
 		}
 		for _, k := range res.SortedOut() {
 			fmt.Println("   ", k, res.Out[k])
+		}
+	}
+}
+
+func init() { Registry["X-term"] = debugTerm }
+
+func debugTerm(r *core.Run) {
+	p := load(r, core.LoadOpts{})
+	name := os.Getenv("GCV_FN")
+	if name == "" {
+		name = "lib/secp256k1.(*Signature).recompute"
+	}
+	fn := p.Func(name)
+	if fn == nil {
+		fmt.Println("no such function", name)
+		return
+	}
+	inl := map[string]bool{}
+	for _, s := range strings.Split(os.Getenv("GCV_INLINE"), ",") {
+		inl[s] = true
+	}
+	ti := an.NewTermInterp(p, an.TermCfg{Inline: func(f *ssa.Function) bool {
+		if inl[core.FuncName(f)] {
+			return true
+		}
+		if f.Signature.Recv() != nil && an.TypeName(f.Signature.Recv().Type()) == "lib/secp256k1.Number" {
+			return true
+		}
+		return false
+	}, Name: func(s string) string {
+		s = strings.ReplaceAll(s, "lib/secp256k1.", "")
+		s = strings.ReplaceAll(s, "math/big.", "big.")
+		return s
+	}})
+	for i, pr := range ti.Run(fn) {
+		fmt.Printf("--- path %d cond=%v loops=%d\n", i, pr.Cond, pr.Loops)
+		for j, t := range pr.Ret {
+			fmt.Printf("  ret%d = %s\n", j, t)
+		}
+		var ks []string
+		for k := range pr.Heap {
+			ks = append(ks, k)
+		}
+		sort.Strings(ks)
+		for _, k := range ks {
+			fmt.Printf("  %s = %s\n", k, pr.Heap[k])
+		}
+	}
+	if ti.Aborted != "" {
+		fmt.Println("ABORTED:", ti.Aborted)
+	}
+	if w := os.Getenv("GCV_WRITES"); w != "" {
+		f2 := p.Func(w)
+		for i := range f2.Params {
+			fmt.Println("writes", w, i, ti.WritesParam(f2, i), "reads", ti.ReadsParam(f2, i))
 		}
 	}
 }
